@@ -189,7 +189,7 @@ def _chunk(args):
     return out
 
 
-def replay(structs: dict, runs: list, nproc: int) -> list:
+def replay(structs: dict, runs: list, nproc: int, pool=None) -> list:
     step = max(1, len(runs) // (nproc * 4) + 1)
     chunks = []
     for i in range(0, len(runs), step):
@@ -197,10 +197,15 @@ def replay(structs: dict, runs: list, nproc: int) -> list:
         keys = {json.dumps(r[1]) for r in part}
         chunks.append(({k: structs[k] for k in keys}, part))
     res = []
-    ctx = mp.get_context("fork")
-    with ctx.Pool(nproc) as pool:
+    own = pool is None
+    if own:
+        pool = mp.get_context("fork").Pool(nproc)
+    try:
         for r in pool.imap(_chunk, chunks):
             res += r
+    finally:
+        if own:
+            pool.terminate()
     return res
 
 
